@@ -13,7 +13,17 @@ CACHE = os.path.join(ROOT, ".cache")
 COQ = os.path.join(ROOT, "coq")
 HARNESS = os.path.join(ROOT, "harness")
 TARGET = os.path.join(CACHE, "target")
-REPO = "/repo"
+# The registered checks always run against /repo.  VERIF_REPO=<dir> points a run at
+# another checkout (a scratch worktree carrying a candidate mutation): the harness
+# is then built from a private copy with its own target dir, so parallel runs
+# against different trees never disturb each other or /repo.
+REPO = os.path.abspath(os.environ.get("VERIF_REPO", "/repo"))
+ALT = REPO != "/repo"
+if ALT:
+    _tag = hashlib.sha1(REPO.encode()).hexdigest()[:12]
+    HARNESS_SRC = HARNESS
+    HARNESS = os.path.join(CACHE, "alt", _tag, "harness")
+    TARGET = os.path.join(CACHE, "alt", _tag, "target")
 
 ENV = dict(os.environ)
 ENV.update({"CARGO_NET_OFFLINE": "true", "CARGO_TERM_COLOR": "never"})
@@ -310,7 +320,23 @@ def build_driver(pid):
 # harness build (against /repo's working tree, hooks on)
 
 
+def _sync_alt_harness():
+    import shutil
+    os.makedirs(HARNESS, exist_ok=True)
+    for sub in ("src", ".cargo"):
+        dst = os.path.join(HARNESS, sub)
+        if os.path.exists(dst):
+            shutil.rmtree(dst)
+        shutil.copytree(os.path.join(HARNESS_SRC, sub), dst)
+    toml = open(os.path.join(HARNESS_SRC, "Cargo.toml")).read().replace('path = "/repo"', 'path = "%s"' % REPO)
+    open(os.path.join(HARNESS, "Cargo.toml"), "w").write(toml)
+    cfg = open(os.path.join(HARNESS_SRC, ".cargo", "config.toml")).read().replace("/verif/.cache/target", TARGET)
+    open(os.path.join(HARNESS, ".cargo", "config.toml"), "w").write(cfg)
+
+
 def build_harness(binname, release=False, features=None):
+    if ALT:
+        _sync_alt_harness()
     lock_src = os.path.join(REPO, "Cargo.lock")
     lock_dst = os.path.join(HARNESS, "Cargo.lock")
     if not os.path.exists(lock_dst) and os.path.exists(lock_src):
@@ -376,8 +402,9 @@ def load_known():
 
 
 def write_evidence(pid, ev):
-    os.makedirs(os.path.join(ROOT, "evidence"), exist_ok=True)
-    p = os.path.join(ROOT, "evidence", pid + ".json")
+    evdir = os.path.join(os.path.dirname(HARNESS), "evidence") if ALT else os.path.join(ROOT, "evidence")
+    os.makedirs(evdir, exist_ok=True)
+    p = os.path.join(evdir, pid + ".json")
     tmp = p + ".tmp"
     with open(tmp, "w") as f:
         json.dump(ev, f, indent=1, sort_keys=True)
